@@ -18,7 +18,7 @@ type verifC16Section struct {
 }
 
 var verifC16Sections = []verifC16Section{
-	{"^a\\.", "60:1440", 60},
+	{"^a\\.;env=prod(;|$)", "60:1440", 60}, // a rule selecting by tag value: the value of the ini line contains '='
 	{"b$", "10s:1d,1m:30d", 10},
 	{"^c", "5m:1y", 300},
 	{".*", "1h:7d", 3600},
